@@ -400,6 +400,9 @@ func judgeUpload(s upScript, r upResult, mode string) (labels []string, nt bool,
 			if len(b) != nl+4+8*count {
 				return nil, false, fmt.Errorf("0x9212 for item %d: count %d does not match body length %d", k, count, len(b))
 			}
+			if len(miss) > 0 && (result == 0 || e.Stage == attachment.ProgressStageComplete) {
+				return nil, false, fmt.Errorf("file %q (%d bytes) is reported complete at item %d (0x9212 result=%d, stage %q) although %d byte ranges have not arrived: %v", f.Name, f.Size, k, result, e.Stage.String(), len(miss), miss[:min(len(miss), 4)])
+			}
 			if mode == "C16" || len(miss) == 0 {
 				if len(miss) > 255 {
 					break
